@@ -390,6 +390,71 @@ def sanity():
     return n
 
 
+OPERAND_OK = ('7', '07', '010', '0010', '08', '099', '00000000012', '2147483647', '0000002147483647', '1', '100', '0100')
+OPERAND_BAD = ('0x10', '1.5', '1e3', '10u', '1_0', '0b1', '1l', '08.', '.5', '1e+1')
+OPERAND_FORMS = (('#line %s', None), ('#line %s "f.c"', 'f.c'), ('# %s "f.c"', 'f.c'), ('# %s "f.c" 1', 'f.c'), ('#line %s "g.h" ', 'g.h'), ('# %s "g.h" 2 3 4', 'g.h'))
+
+
+def _first_diag(err):
+    m = _diag.match(err)
+    return (m.group(1).decode('latin-1'), int(m.group(2))) if m else None
+
+
+def operand_stratum(chk, srv):
+    """The operand of #line and of line markers is a digit sequence read in decimal (6.10.4p3): every spelling x every directive form x
+    0..2 code lines before the reporting token; a spelling that is not a digit sequence must be rejected at the #line directive itself."""
+    n = bad = 0
+    for form, fname in OPERAND_FORMS:
+        for sp in OPERAND_OK:
+            for k in range(3):
+                text = ('int pre;\n' + form % sp + '\n' + 'int c;\n' * k + 'int x = ;\n').encode()
+                exp = (fname or '<stdin>', int(sp, 10) + k)
+                r = srv.compile(text, cpu_s=5)
+                n += 1
+                got = _first_diag(r.err) if r.status == 1 else ('status', r.status)
+                if got != exp:
+                    w = subprocess.run(['gcc', '-fsyntax-only', '-xc', '-'], input=text, stdout=subprocess.PIPE, stderr=subprocess.PIPE, timeout=60)
+                    wm = re.search(rb'^(.*?):(\d+):\d+: error: ', w.stderr, re.M)
+                    wgot = (wm.group(1).decode('latin-1'), int(wm.group(2))) if wm else None
+                    if wgot == exp:
+                        bad += 1
+                        chk.violation('line-number-operand/not-read-as-decimal-digit-sequence', 'after %r the token %d lines later is at %s:%d, cproc reports %r' % (form % sp, k + 1, exp[0], exp[1], got),
+                                      files={'input.c': text}, cmd='$CPROC_QBE < input.c 2>&1 >/dev/null | head -n 1')
+        if form.startswith('#line'):
+            for sp in OPERAND_BAD:
+                text = ('int pre;\n' + form % sp + '\nint c;\n').encode()
+                r = srv.compile(text, cpu_s=5)
+                n += 1
+                got = _first_diag(r.err) if r.status == 1 else ('status', r.status)
+                if got != ('<stdin>', 2):
+                    w = subprocess.run(['gcc', '-fsyntax-only', '-pedantic-errors', '-xc', '-'], input=text, stdout=subprocess.PIPE, stderr=subprocess.PIPE, timeout=60)
+                    if w.returncode != 0 and re.search(rb'^<stdin>:2:\d+: error: ', w.stderr, re.M):
+                        bad += 1
+                        chk.violation('line-number-operand/non-digit-sequence-accepted', '%r must be rejected at <stdin>:2 (not a digit sequence), cproc: %r' % (form % sp, got),
+                                      files={'input.c': text}, cmd='$CPROC_QBE < input.c; test $? = 1')
+    # the file name operand is a character string literal: its VALUE names the file (escape sequences decoded); two witnesses
+    names = (('plain.c', 'plain.c'), ('with space.c', 'with space.c'), ('dir/sub/x.h', 'dir/sub/x.h'), ('a\\\\b.c', 'a\\b.c'), ('q\\"q.c', 'q"q.c'), ('', ''),
+             ('x.c\\\\', 'x.c\\'), ("it's.c", "it's.c"), ('<angle>', '<angle>'), ('caf\u00e9.c'.encode().decode('latin-1'), 'caf\u00e9.c'.encode().decode('latin-1')))
+    for form in ('#line 5 "%s"', '# 5 "%s"', '# 5 "%s" 1'):
+        for spelled, value in names:
+            text = ('int pre;\n' + form % spelled + '\nint x = ;\n').encode('latin-1')
+            exp = (value, 5)
+            r = srv.compile(text, cpu_s=5)
+            n += 1
+            got = _first_diag(r.err) if r.status == 1 else ('status', r.status)
+            if got != exp:
+                ws = []
+                for tool in ('gcc', 'clang'):
+                    w = subprocess.run([tool, '-fsyntax-only', '-xc', '-'], input=text, stdout=subprocess.PIPE, stderr=subprocess.PIPE, timeout=60)
+                    wm = re.search(rb'^(.*?):(\d+):\d+: error: ', w.stderr, re.M)
+                    ws.append((wm.group(1).decode('latin-1'), int(wm.group(2))) if wm else None)
+                if ws[0] == exp and ws[1] == exp:
+                    bad += 1
+                    chk.violation('line-file-name/escape-sequences-not-decoded', 'after %r the file name is %r, cproc reports %r' % (form % spelled, value, got),
+                                  files={'input.c': text}, cmd='$CPROC_QBE < input.c 2>&1 >/dev/null | head -n 1')
+    return n, bad
+
+
 def main(chk):
     nsan = sanity()
     chk.log('witness sanity: %d observations agree with locref' % nsan)
@@ -447,6 +512,9 @@ def main(chk):
                'cmp -s now got && exit 1   # same diagnostic as recorded: reproduces\nexit 0')
         for _ in range(v['count']):
             chk.violation(key, v['what'], files={'input.c': v['text'], 'got': got, 'expected': v['what'].split(', cproc reports')[0] + '\n'}, cmd=cmd)
+    nop, badop = operand_stratum(chk, srv)
+    per['line-number-operand'] = dict(evaluations=nop, agree_with_locref=nop - badop, differ_from_locref=badop, ambiguous=0, shards=1)
+    tot['evaluations'] += nop
     chk.strata = per
     cov = {
         'states': len(states),
